@@ -98,6 +98,7 @@ def _gen_op(ch: core.Chooser, nslots: int, names: List[str]) -> dict:
         node["vals"] = [ch.choice([0, 1, 2, 3]) for _ in names]
         node["var"] = ch.choice(names)
         node["array_arg"] = ch.chance(0.7)
+        node["float_arg"] = ch.sub("float").chance(0.4)
     if fn == "symbols_one":
         node["spec"] = ch.choice(["q", "q0", "q1 q2", "q:2", "q", "q3"])
     if fn == "noname_ctor":
@@ -137,6 +138,12 @@ def _gen_lit(ch: core.Chooser, names: List[str], shape: Optional[tuple] = None) 
     lit = gen_poly(ch, names=sub, shape=shape if shape is not None else ch.choice([(), (2,), (2,), (2, 2)]), kind=ch.choice(["int", "int", "float"]), max_terms=4, max_exp=2,
                    same_degree=ch.choice([None, None, 3]))
     lit["retain"] = None  # built under the options in force
+    ct = ch.sub("tiny")
+    if lit["dtype"] == "float64" and ct.chance(0.12):
+        # a non-constant term whose coefficients are subnormal numbers: tiny, and not zero
+        for e, col in zip(lit["exponents"], lit["coefficients"]):
+            if sum(e) and ct.chance(0.6):
+                col[:] = [ct.choice([5e-324, 1e-310, -3e-320, 2e-308]) for _ in col]
     return lit
 
 
@@ -385,6 +392,12 @@ class Exec:
             if var not in const.names:
                 raise core.Undecided("name pruned from the operand (retain_names) or never present")
             v = node["vals"][self.plan["names"].index(var)]
+            if node.get("float_arg"):
+                # a float point for an integer polynomial: the result type must not depend on which zero terms are kept
+                # (with names pruned the promotion legitimately differs, see the module docstring: not judged then)
+                if not n.get_options()["retain_names"]:
+                    raise core.Undecided("float argument while names are being pruned")
+                v = v + 0.5
             return const(**{var: numpy.array([v, v + 1, v + 3]) if node.get("array_arg") else v})
         if fn in ("call_full", "call_partial", "call_poly"):
             vals = dict(zip(self.plan["names"], node["vals"]))
